@@ -120,6 +120,11 @@ func (w *world) applyPOp(o *POp) (coq string, mon []string) {
 		}
 		opCoq = "OConnect " + w.t.nodeCoq(*nd)
 		o.NowS = nd.LastSeen.UnixNano()
+		// a registration is a check-in: the record carries the time of this registration, whatever
+		// the node's history (a peer that just registered is live to everybody who reports it)
+		if age := time.Since(nd.LastSeen); age > 10*time.Second || age < -10*time.Second {
+			mon = append(mon, fmt.Sprintf("c11-registration-not-a-check-in: %s registered just now, its record says it was last seen %s ago: whoever reports it next will have it declared invalid", o.Node, age.Round(time.Second)))
+		}
 		res := "POk"
 		if err != nil {
 			res = presErr(e)
@@ -162,6 +167,17 @@ func (w *world) applyPOp(o *POp) (coq string, mon []string) {
 		for _, n := range univ {
 			if b, err := w.st.GetNodeBalance(store.NodeID(nodeIDOf(n))); err == nil {
 				balBefore[n] = new(big.Int).Set(&b.Credit)
+			}
+		}
+		// reported peers that are registered and checked in within the window: live, whatever the
+		// style of the record that names them
+		liveReported := map[string]bool{}
+		for _, pn := range o.Peers {
+			if pn == o.Node {
+				continue
+			}
+			if pnode, e := w.st.GetNode(store.NodeID(nodeIDOf(pn))); e == nil && time.Since(pnode.LastSeen) < store.ExpireInterval-2*time.Second {
+				liveReported[pn] = true
 			}
 		}
 		var resp *pool.UpdateResponse
@@ -216,6 +232,19 @@ func (w *world) applyPOp(o *POp) (coq string, mon []string) {
 			res = presErr(e)
 		}
 		o.Inv, o.Act, o.Disc = inv, active, disc
+		if perr == nil && (err == nil || e.Class == "low") {
+			for pn := range liveReported {
+				tracked := false
+				for _, a := range active {
+					if a == pn {
+						tracked = true
+					}
+				}
+				if !tracked {
+					mon = append(mon, fmt.Sprintf("c11-reported-live-peer-not-tracked: %s reported %s, a registered node that checked in within the expiry window; after the keep-alive it is not among the tracked peers %v (nobody is credited for it, the client is not charged for it)", o.Node, pn, active))
+				}
+			}
+		}
 		obsCoq = fmt.Sprintf("ObUpdate %s %s %s %s %s", res, w.cNames(inv), w.cNames(active), w.cNames(disc), cBig(w.totalCredit()))
 		// C02 monitor: per-peer credit and client debit equal floor(elapsed*price/interval)
 		if perr == nil && !o.RealClk && (err == nil || e.Class == "low") {
